@@ -677,6 +677,35 @@ def part_run(ctx: Ctx) -> Result:
             if sorted(lo[:n_before]) != per_round_o or sorted(lo[n_mid:]) != per_round_o or sorted(li) != per_round_i or set(lo) - so or set(li) - si:
                 res.violate(Violation(ID, "custom-filter", "nested-tracing-blocks", {"part": "F", "outer": mo, "inner": mi}, f"outer filter {sorted(so)}, inner filter {sorted(si)}: outer logger saw {lo[:n_before]} before, {lo[n_before:n_mid]} during and {lo[n_mid:]} after the inner block; inner logger saw {li}"))
     res.bounds["F_subset_filters"] = 64
+    # functions that share their NAME (one file, different qualified names): every subset filter over {trace, Router.trace,
+    # K.m, K.sm} x both call orders - the filter's verdict belongs to the code object, not to the name
+    same = {"trace": mod.trace, "Router.trace": mod.Router.trace, "K.m": mod.K.m, "K.sm": mod.K.sm}
+    snames = list(same)
+    for mask in range(16):
+        sel = {snames[i] for i in range(4) if mask & (1 << i)}
+        codes_s = {same[n].__code__ for n in sel}
+        for rev in (False, True):
+            logged_s: List[str] = []
+
+            class LS:
+                def log(self, t):
+                    logged_s.append(t.func.__qualname__)
+
+                def flush(self):
+                    pass
+
+            calls_s = [lambda: mod.trace(1), lambda: mod.Router().trace(1), lambda: mod.K.sm(1)]
+            with trace_calls(LS(), 0, lambda code: code in codes_s):
+                for c in (reversed(calls_s) if rev else calls_s):
+                    c()
+                    c()
+            res.states += 1
+            res.transitions += 1
+            res.evaluations += 1
+            res.validated += 1
+            want_s = sel - {"K.m"}
+            if set(logged_s) != want_s or len(logged_s) != 2 * len(want_s):
+                res.violate(Violation(ID, "custom-filter", "same-named-functions", {"part": "F", "mask": mask, "reversed": rev}, f"filter accepts the code objects of {sorted(sel)} (a function and a method both named `trace`), calls {'reversed' if rev else 'in order'}, each twice: logger saw {logged_s}"))
     del sys.modules[modname]
     # code with a synthetic file name (exec-generated) and a custom filter that accepts it: what the filter accepts is logged
     ns_exec: Dict[str, Any] = {"__name__": "c17_generated"}
